@@ -1,6 +1,6 @@
 (* C06 — Registry integrity: unique identities, complete release on termination.
    Property theorems only; proofs live in Ids/ and Rel/. *)
-From Ergo Require Import Common.Base Ids.Model Ids.Proofs Ids.Cases Rel.Amap Rel.Model Rel.TMProofs Rel.RegProofs Rel.Cases.
+From Ergo Require Import Common.Base Ids.Model Ids.Proofs Ids.Cases Rel.Amap Rel.Model Rel.TMProofs Rel.RegProofs Rel.AgreeProofs Rel.DangleProofs Rel.Cases.
 Local Open Scope N_scope.
 
 (* MakeRef (after the fix) is injective on the 64-bit counter: no two calls of one node life give
@@ -60,10 +60,72 @@ Theorem C06_register_race : forall n p tl names,
 Proof. exact race_register_one_wins. Qed.
 Print Assumptions C06_register_race.
 
-(* release: after unregisterProcess(p) has completed (in any reachable state): p is in no table, its
-   name / aliases / events are free again, and no relation mentions p as requester, nor p's pid,
-   name, aliases or events as target *)
+(* The agreement invariant, over ALL histories of complete registry operations (spawn with/without
+   name and links, RegisterName/UnregisterName, CreateAlias/DeleteAlias with its swap-remove exactly
+   as coded, RegisterEvent/UnregisterEvent, link/unlink/monitor/demonitor, terminate, cascade), as
+   long as the 64-bit process id counter does not wrap: for every live process p the name field, the
+   alias list and the event map of p's own record name exactly the names / aliases / events the node
+   tables map to p, without duplicates; every table entry belongs to a live process; table keys are
+   unique.  (This is what unregisterProcess relies on when it reads the record to decide what to
+   delete and drain - the class of the DeleteAlias defect.) *)
+Theorem C06_agreement_hist : forall ops nextpid uniq,
+  nextpid + N.of_nat (length ops) < Rel.Model.two64 ->
+  let s := fst (run_ops ops (st0 nextpid uniq)) in
+  (forall p pr, aget pid_dec p (s_procs s) = Some pr ->
+     (forall n, pr_name pr = Some n <-> aget N.eq_dec n (s_names s) = Some p) /\
+     NoDup (pr_aliases pr) /\ (forall a, In a (pr_aliases pr) <-> aget N.eq_dec a (s_aliases s) = Some p) /\
+     NoDup (pr_events pr) /\ (forall e, In e (pr_events pr) <-> aget N.eq_dec e (s_events s) = Some p)) /\
+  ((forall n q, aget N.eq_dec n (s_names s) = Some q -> live q s = true) /\
+   (forall a q, aget N.eq_dec a (s_aliases s) = Some q -> live q s = true) /\
+   (forall e q, aget N.eq_dec e (s_events s) = Some q -> live q s = true)) /\
+  agree s.
+Proof.
+  intros ops nextpid uniq NW s.
+  assert (AG : agree s) by (apply run_ops_agree; [apply agree_st0 | exact NW]).
+  split; [apply agree_spelled, AG|]. split; [apply agree_entries_live, AG | exact AG].
+Qed.
+Print Assumptions C06_agreement_hist.
+
+(* every single operation preserves it (the inductive step, for any state satisfying it) *)
+Theorem C06_agreement_step : forall o s,
+  agree s -> s_nextpid s + 1 < Rel.Model.two64 -> agree (fst (exec o s)).
+Proof. intros o s AG NW. apply (exec_agree o s AG NW). Qed.
+Print Assumptions C06_agreement_step.
+
+(* Release, history level and record free: after ANY history, when a live process p terminates
+   (unregisterProcess completes): p is not listed; NO table entry maps to p; every name, alias and
+   event the tables mapped to p is free again; no relation has p as requester, nor p's pid or any of
+   the names / aliases / events the tables mapped to p as target (all other relations are kept or
+   were relations of those targets); and the invariant holds again, so this stays true for what
+   other processes own. *)
+Theorem C06_release_hist : forall ops nextpid uniq p r,
+  nextpid + N.of_nat (length ops) < Rel.Model.two64 ->
+  let s := fst (run_ops ops (st0 nextpid uniq)) in
+  live p s = true ->
+  let s' := fst (exec (OTerminate p r) s) in
+  live p s' = false /\
+  ((forall n, aget N.eq_dec n (s_names s') <> Some p) /\
+   (forall a, aget N.eq_dec a (s_aliases s') <> Some p) /\
+   (forall e, aget N.eq_dec e (s_events s') <> Some p)) /\
+  ((forall n, aget N.eq_dec n (s_names s) = Some p -> aget N.eq_dec n (s_names s') = None) /\
+   (forall a, aget N.eq_dec a (s_aliases s) = Some p -> aget N.eq_dec a (s_aliases s') = None) /\
+   (forall e, aget N.eq_dec e (s_events s) = Some p -> aget N.eq_dec e (s_events s') = None)) /\
+  (forall k, In k (rels (s_tm s')) ->
+     In k (rels (s_tm s)) /\ kc k <> p /\ kt k <> TPid p /\
+     (forall n, aget N.eq_dec n (s_names s) = Some p -> kt k <> TName n me) /\
+     (forall a, aget N.eq_dec a (s_aliases s) = Some p -> kt k <> TAlias me a) /\
+     (forall e, aget N.eq_dec e (s_events s) = Some p -> kt k <> TEvent e me)) /\
+  agree s'.
+Proof.
+  intros ops nextpid uniq p r NW s L. apply release_hist; [|apply run_ops_idx_ok, idx_ok_empty | exact L].
+  apply run_ops_agree; [apply agree_st0 | exact NW].
+Qed.
+Print Assumptions C06_release_hist.
+
+(* the record-relative form (what unregisterProcess reads off p's record is released) - now a
+   corollary of the invariant *)
 Theorem C06_release : forall ops nextpid uniq p pr r k,
+  nextpid + N.of_nat (length ops) < Rel.Model.two64 ->
   let s := fst (run_ops ops (st0 nextpid uniq)) in
   aget pid_dec p (s_procs s) = Some pr ->
   let s' := terminate p r s in
@@ -77,11 +139,55 @@ Theorem C06_release : forall ops nextpid uniq p pr r k,
    (forall a, In a (pr_aliases pr) -> kt k <> TAlias me a) /\
    (forall e, In e (pr_events pr) -> kt k <> TEvent e me)).
 Proof.
-  intros ops nextpid uniq p pr r k s E s'. split.
-  - apply terminate_release_tables, E.
-  - apply terminate_release_relations; [apply run_ops_idx_ok, idx_ok_empty | exact E].
+  intros ops nextpid uniq p pr r k NW s E s'. apply release_record; [|apply run_ops_idx_ok, idx_ok_empty | exact E].
+  apply run_ops_agree; [apply agree_st0 | exact NW].
 Qed.
 Print Assumptions C06_release.
+
+(* ... and it stays so: in the state after ANY history every link / monitor relation has a live
+   requester and, for a target of this node, a target that is present in its table and belongs to
+   a live process (a pid target is a live process).  Hence a process that has terminated - at any
+   point of the history - is in no relation, neither as requester nor through its pid, and no
+   relation points to a name / alias / event that is not currently owned by a live process. *)
+Theorem C06_no_dangling_hist : forall ops nextpid uniq,
+  nextpid + N.of_nat (length ops) < Rel.Model.two64 ->
+  let s := fst (run_ops ops (st0 nextpid uniq)) in
+  forall k, In k (rels (s_tm s)) ->
+    live (kc k) s = true /\
+    match kt k with
+    | TPid q => live q s = true
+    | TName n nd => nd = me -> exists q, aget N.eq_dec n (s_names s) = Some q /\ live q s = true
+    | TAlias nd a => nd = me -> exists q, aget N.eq_dec a (s_aliases s) = Some q /\ live q s = true
+    | TEvent e nd => nd = me -> exists q, aget N.eq_dec e (s_events s) = Some q /\ live q s = true
+    | TNode _ => True
+    end.
+Proof. exact no_dangling_hist. Qed.
+Print Assumptions C06_no_dangling_hist.
+
+Theorem C06_dead_in_no_relation : forall ops nextpid uniq p,
+  nextpid + N.of_nat (length ops) < Rel.Model.two64 ->
+  let s := fst (run_ops ops (st0 nextpid uniq)) in
+  live p s = false -> forall k, In k (rels (s_tm s)) -> kc k <> p /\ kt k <> TPid p.
+Proof.
+  intros ops nextpid uniq p NW s D k HI. destruct (no_dangling_hist ops nextpid uniq NW k HI) as [L T]. fold s in L, T.
+  split; [intros E; rewrite E in L; congruence|]. intros E. rewrite E in T. congruence.
+Qed.
+Print Assumptions C06_dead_in_no_relation.
+
+(* The DeleteAlias defect (before commit 234e1d4: `p.aliases[0] = p.aliases[i]; p.aliases = p.aliases[1:]`)
+   is exactly a violation of the invariant, with four operations: spawn; CreateAlias (1);
+   CreateAlias (2); DeleteAlias 2 leaves the record [2] and the table {1 -> p}.  Killing p then
+   leaves alias 1 resolving to the dead process; with the code as it is now everything is released. *)
+Theorem C06_delete_alias_refuted_before_fix :
+  let ops := [OSpawnNode None; OCreateAlias (lpid 1001); OCreateAlias (lpid 1001); ODeleteAlias (lpid 1001) 2] in
+  ~ agree (fst (run_ops_old ops (st0 1000 0))) /\
+  agree (fst (run_ops ops (st0 1000 0))) /\
+  refute_leak_b = true.
+Proof.
+  split; [exact delete_alias_breaks_agreement_before_fix|]. split; [|exact refute_leak].
+  apply run_ops_agree; [apply agree_st0 | vm_compute; reflexivity].
+Qed.
+Print Assumptions C06_delete_alias_refuted_before_fix.
 
 (* non-vacuity: a process with a name, two aliases (one deleted), an event and relations in both
    directions terminates: every table is empty afterwards and no relation is left *)
@@ -92,4 +198,18 @@ Example C06_example :
   let s := fst (run_ops ops (st0 1000 0)) in
   s_names s = [] /\ s_aliases s = [] /\ s_events s = [] /\ rels (s_tm s) = [] /\
   map fst (s_procs s) = [lpid 1002] /\ inbox_of (lpid 1002) s = [mknote false (TAlias me 1) 12].
+Proof. vm_compute. repeat split; reflexivity. Qed.
+
+(* non-vacuity of the history-level statements: a history (well below the counter limit) after which
+   process 1001 is alive and the tables map a name, an alias and an event to it, while 1002 holds
+   relations on them *)
+Example C06_hist_example :
+  let ops := [OSpawnNode (Some 5); OSpawnNode None; OCreateAlias (lpid 1001); OCreateAlias (lpid 1001);
+              ODeleteAlias (lpid 1001) 1; ORegisterEvent (lpid 1001) 7; OLink (lpid 1002) (TAlias me 2);
+              OMonitor (lpid 1002) (TName 5 me); OMonitor (lpid 1002) (TEvent 7 me)] in
+  let s := fst (run_ops ops (st0 1000 0)) in
+  (1000 + N.of_nat (length ops) <? Rel.Model.two64) = true /\ live (lpid 1001) s = true /\
+  aget N.eq_dec 5 (s_names s) = Some (lpid 1001) /\ aget N.eq_dec 2 (s_aliases s) = Some (lpid 1001) /\
+  aget N.eq_dec 7 (s_events s) = Some (lpid 1001) /\ length (rels (s_tm s)) = 3%nat /\
+  rels (s_tm (fst (exec (OTerminate (lpid 1001) 12) s))) = [].
 Proof. vm_compute. repeat split; reflexivity. Qed.
